@@ -26,6 +26,7 @@ COMPILER_REPLAYS = {
     "u_closenv": ["replay/c08/run.sh"],
     "u_liftty": ["replay/c08/nested_tuple.sh", "replay/c08/closure_callee.sh", "replay/c08/closure_returns_closure.sh", "replay/c08/nested_tuple_literal.sh"],
     "u_tastlit": ["replay/c10/run.sh"],
+    "u_fmtverb": ["replay/c10/float_to_string.sh"],
     "u_block": ["replay/c17/method_value.sh"],
     "u_inherent": ["replay/c17/dup_inherent.sh", "replay/c17/overlap_inherent.sh"],
     "u_calllower": ["replay/c11/paren_call.sh", "replay/c11/neg_nullary.sh", "replay/c11/tuple_nested.sh"],
